@@ -80,7 +80,12 @@ PropSeqs(ctx) ==
                                   <<PV(38, <<Txt(1), Txt(1)>>), PV(o, SampleVal(o)), PV(38, <<Txt(2), Txt(2)>>)>>}
                    ELSE {})
       subs == IF ctx = 3 THEN {<<PV(11, 1), PV(38, <<Txt(1), Txt(1)>>), PV(11, MaxVBI), PV(11, 1)>>} ELSE {}
-      big == {<<PV(38, <<Txt(2), Txt(m)>>)>> : m \in {121, 122, 16380}}  \* property length 128 (80 01), 129 and a 3-byte one
+      \* property length 128 (80 01), 129 and a 3-byte one, alone and with the narrowest property of the context before / behind
+      narrow == IF A \cap BoolIds # {} THEN PV(CHOOSE x \in A \cap BoolIds : TRUE, 1)
+                ELSE IF 11 \in A THEN PV(11, 5) ELSE PV(38, <<Txt(1), <<>>>>)
+      big == UNION {{<<PV(38, <<Txt(2), Txt(m)>>)>>, <<PV(38, <<Txt(2), Txt(m)>>), narrow>>, <<narrow, PV(38, <<Txt(2), Txt(m)>>)>>}
+                    \cup (IF 11 \in A THEN {<<PV(38, <<Txt(2), Txt(m)>>), PV(11, 5)>>} ELSE {}) :
+                      m \in {121, 122, 16380}}
       all == asc \cup rev \cup rot \cup perm \cup vals \cup zeros \cup ups \cup subs \cup big
   IN IF A = {} THEN {<<>>} ELSE {s \in all : HasProp(s, 22) => HasProp(s, 21)}
 
@@ -165,7 +170,7 @@ Auths ==
   \cup { [t |-> 15, fl |-> 0, v |-> [ReasonCode |-> r, Props |-> ps]] : r \in {0, 24, 25}, ps \in PropSeqs(15) }
 
 (* one string / binary field at each boundary length *)
-Lens == {0, 1, 127, 128, 16383, 16384, 65534, 65535}
+Lens == {0, 1, 40, 49, 127, 128, 255, 256, 16383, 16384, 65534, 65535}      \* (40, 49, 255, 256: sizes at which renderings may shorten a text)
 LongOnesAll(t) ==
   IF t = 1 THEN { [t |-> 1, fl |-> 0, v |-> [ProtocolName |-> MQTTName, ProtocolVersion |-> 5, ConnectFlags |-> 128 + 64 + 4,
                     KeepAlive |-> 1, Props |-> IF j = 1 THEN <<PV(21, Txt(n))>> ELSE IF j = 2 THEN <<PV(21, Txt(1)), PV(22, Bin(n))>> ELSE <<>>,
@@ -174,15 +179,15 @@ LongOnesAll(t) ==
                     WillTopic |-> IF j = 6 /\ n > 0 THEN Txt(n) ELSE Txt(1), WillPayload |-> IF j = 7 THEN Bin(n) ELSE <<>>,
                     Username |-> IF j = 8 THEN Txt(n) ELSE Txt(1), Password |-> IF j = 9 THEN Bin(n) ELSE <<1>>]] :
                   n \in Lens, j \in 1..9 }
-  ELSE IF t = 2 THEN { [t |-> 2, fl |-> 0, v |-> [AckFlags |-> 0, ReasonCode |-> 0, Props |-> <<PV(id, Txt(n))>>]] : n \in Lens, id \in {18, 31, 26, 28} }
+  ELSE IF t = 2 THEN { [t |-> 2, fl |-> 0, v |-> [AckFlags |-> 0, ReasonCode |-> rc, Props |-> <<PV(id, Txt(n))>>]] : n \in Lens, id \in {18, 31, 26, 28}, rc \in {0, 135} }
   ELSE IF t = 3 THEN { [t |-> 3, fl |-> 0, v |-> [TopicName |-> Txt(n), Props |-> <<>>, Payload |-> <<>>]] : n \in Lens \ {0} }
                      \cup { [t |-> 3, fl |-> 0, v |-> [TopicName |-> Txt(1), Props |-> <<PV(id, Txt(n))>>, Payload |-> <<>>]] : n \in Lens, id \in {3, 9, 38} \ {38} }
                      \cup { [t |-> 3, fl |-> 0, v |-> [TopicName |-> Txt(1), Props |-> <<PV(38, <<Txt(IF j = 1 THEN n ELSE 1), Txt(IF j = 2 THEN n ELSE 1)>>)>>, Payload |-> Bin(2)]] : n \in Lens \ {0}, j \in 1..2 }
-  ELSE IF t \in 4..7 THEN { [t |-> t, fl |-> IF t = 6 THEN 2 ELSE 0, v |-> [PacketID |-> 1, ReasonCode |-> 0, Props |-> <<PV(31, Txt(n))>>]] : n \in Lens }
+  ELSE IF t \in 4..7 THEN { [t |-> t, fl |-> IF t = 6 THEN 2 ELSE 0, v |-> [PacketID |-> 1, ReasonCode |-> rc, Props |-> <<PV(31, Txt(n))>>]] : n \in Lens, rc \in {0, 146} }
   ELSE IF t = 8 THEN { [t |-> 8, fl |-> 2, v |-> [PacketID |-> 1, Props |-> <<>>, Filters |-> << <<Txt(n), 1>>, <<Txt(1), 0>> >>]] : n \in Lens \ {0} }
   ELSE IF t \in {9, 11} THEN { [t |-> t, fl |-> 0, v |-> [PacketID |-> 1, Props |-> <<PV(31, Txt(n))>>, ReasonCodes |-> <<0>>]] : n \in Lens }
   ELSE IF t = 10 THEN { [t |-> 10, fl |-> 2, v |-> [PacketID |-> 1, Props |-> <<>>, Filters |-> <<Txt(n), Txt(1)>>]] : n \in Lens \ {0} }
-  ELSE IF t = 14 THEN { [t |-> 14, fl |-> 0, v |-> [ReasonCode |-> 0, Props |-> <<PV(id, Txt(n))>>]] : n \in Lens, id \in {31, 28} }
+  ELSE IF t = 14 THEN { [t |-> 14, fl |-> 0, v |-> [ReasonCode |-> rc, Props |-> <<PV(id, Txt(n))>>]] : n \in Lens, id \in {31, 28}, rc \in {0, 142} }
   ELSE IF t = 15 THEN { [t |-> 15, fl |-> 0, v |-> [ReasonCode |-> 24, Props |-> <<PV(21, Txt(IF j = 1 THEN n ELSE 1))>> \o (IF j = 2 THEN <<PV(22, Bin(n))>> ELSE <<>>)]] : n \in Lens, j \in 1..2 }
   ELSE {}
 
